@@ -592,3 +592,100 @@ func runC20s(rc *RunCtx) {
 	simrt.Quiesce()
 	rc.Nontrivial = true
 }
+
+// c20f: the database changes its mind between two visits of one client (same
+// address, same key, no overlap): each visit is labelled by what the database
+// said at that visit (XD on an error, ZZ on a miss, else its answer), in the
+// tunnel-time family as everywhere else - never by what it said the time before.
+func init() {
+	Register(&Scenario{Name: "c20f", Prop: "C20", MaxSteps: 50000, Run: runC20f})
+}
+
+func runC20f(rc *RunCtx) {
+	G := rc.G
+	db := &fakeIPInfo{Answers: map[string]ipinfo.IPInfo{}, Errs: map[string]bool{}}
+	prom := newPromMetricsWith(rc, db)
+	ip := net.IPv4(93, 184, 216, 77).To4()
+	labels := []string{"XD", "ZZ", "QA", "QB"}
+	set := func(st int) {
+		delete(db.Errs, ip.String())
+		delete(db.Answers, ip.String())
+		switch st {
+		case 0:
+			db.Errs[ip.String()] = true
+		case 2, 3:
+			db.Answers[ip.String()] = ipinfo.IPInfo{CountryCode: ipinfo.CountryCode(labels[st]), ASN: ipinfo.ASN{Number: 64700 + st, Organization: "Flip Net"}}
+		}
+	}
+	s1 := G.Draw(4)
+	s2 := (s1 + 1 + G.Draw(3)) % 4
+	key := "key-flip"
+	local := &net.TCPAddr{IP: net.IPv4(203, 0, 113, 5), Port: 9000}
+	type visit struct{ s0, s1, e0, e1 time.Duration }
+	do := func(port int, d time.Duration, udp bool) visit {
+		var v visit
+		if udp {
+			v.s0 = simrt.Elapsed()
+			um := prom.AddUDPNatEntry(&net.UDPAddr{IP: ip, Port: port}, key)
+			v.s1 = simrt.Elapsed()
+			simrt.Sleep(d)
+			v.e0 = simrt.Elapsed()
+			um.RemoveNatEntry()
+			v.e1 = simrt.Elapsed()
+			return v
+		}
+		tm := prom.AddOpenTCPConnection(&fakeConn{remote: &net.TCPAddr{IP: ip, Port: port}, local: local})
+		v.s0 = simrt.Elapsed()
+		tm.AddAuthenticated(key)
+		v.s1 = simrt.Elapsed()
+		simrt.Sleep(d)
+		v.e0 = simrt.Elapsed()
+		tm.AddClosed("OK", metrics.ProxyMetrics{ClientProxy: 100, ProxyTarget: 90, TargetProxy: 500, ProxyClient: 510}, d)
+		v.e1 = simrt.Elapsed()
+		return v
+	}
+	d1 := time.Duration(1+G.Draw(5)) * time.Second
+	d2 := time.Duration(1+G.Draw(5)) * time.Second
+	set(s1)
+	v1 := do(52001, d1, G.Draw(3) == 0)
+	if G.Draw(2) == 0 {
+		simrt.Sleep(time.Duration(G.Draw(3)) * time.Second)
+		collectFamilies(prom)
+		simrt.Probe("scrape_between_the_visits")
+	}
+	simrt.Sleep(time.Duration(G.Draw(3)) * time.Second)
+	set(s2)
+	v2 := do(52001+G.Draw(2), d2, G.Draw(3) == 0)
+	simrt.Sleep(time.Second)
+	vals, p := collectFamilies(prom)
+	rc.Nontrivial = true
+	rc.State(fmt.Sprintf("%s->%s", labels[s1], labels[s2]))
+	if p != nil {
+		rc.Inconclusive = append(rc.Inconclusive, "scrape-panicked")
+		return
+	}
+	perLoc := map[string]float64{}
+	for k, v := range vals["tunnel_time_seconds_per_location"] {
+		for _, l := range strings.Split(k, ",") {
+			if strings.HasPrefix(l, "location=") {
+				perLoc[strings.TrimPrefix(l, "location=")] += v
+			}
+		}
+	}
+	const eps = 1e-6
+	for i, x := range []struct {
+		st int
+		v  visit
+	}{{s1, v1}, {s2, v2}} {
+		lo, hi := (x.v.e0 - x.v.s1).Seconds(), (x.v.e1 - x.v.s0).Seconds()
+		if got := perLoc[labels[x.st]]; got < lo-eps || got > hi+eps {
+			rc.Failf("visit-labelled-by-stale-lookup", "visit %d of client %s lasted between %.6f and %.6f s while the database answered %q for it (the other visit: %q); tunnel_time_seconds_per_location has %.6f s under %q (all: %v)", i+1, ip, lo, hi, labels[x.st], labels[[]int{s2, s1}[i]], got, labels[x.st], perLoc)
+		}
+	}
+	for l, v := range perLoc {
+		if l != labels[s1] && l != labels[s2] && v > eps {
+			rc.Failf("location-label-unexpected:"+l, "tunnel time under location %q, which the database never gave for the only client of the run (%q, then %q)", l, labels[s1], labels[s2])
+		}
+	}
+	rc.Phase = "done"
+}
